@@ -8,7 +8,9 @@ One JSON object per input line, one JSON object per output line.
      C        = {"params":[{"name":s,"ty":[atom,...],"dflt":null|{"tok":s,"key":s,"str":s},"kind":"pk"|"ko"},...],
                  "varkw":b,"uses":[{"g":"a"|{"const":b}|{"branch":i},"u":U},...]}
      U        = {"pop":[n,D]} | {"get":[n,D]} | {"super":{"frm":null|i,"k":k,"given":[n,...]}}
-              | {"call":{"t":["entry",i]|["self",j]|["cls"],"k":k,"given":[n,...]}}
+              | {"call":{"t":["entry",i]|["self",j]|["cls"]|["cmeth",c,j]|["attr",i],"k":k,"given":[n,...]}}
+                ("cmeths" of a class = the classmethods it offers, inherited ones included; ["cmeth",c,j] = `Cls_c.factory_j(…)`;
+                 ["attr",i] = `self._kw = kwargs` … `entry_i(…, **self._kw)` in a method/property)
   -> {"results":[{"out":"ok"|"crash"|"nofuel","params":[{"name","ty","dflt":null|{"tok":s}|{"cond":s},"kind","otuple"},...],
                   "accepts":[b,...]},...],"wf":b,"acyclic":b,"noclash":b,"bound":n}
      wf = the decidable hypothesis `WfProg` of theorem C13_exact holds for the program
@@ -70,6 +72,8 @@ def targetOf (j : Json) : Target :=
   match j with
   | .arr #[.str "entry", i] => .entry (jNat i)
   | .arr #[.str "self", i] => .selfMeth (jNat i)
+  | .arr #[.str "cmeth", c, i] => .classMeth (jNat c) (jNat i)
+  | .arr #[.str "attr", i] => .attrEntry (jNat i)
   | _ => .clsSelf
 
 def useOf (j : Json) : Use :=
